@@ -4,7 +4,8 @@ A case is a HISTORY of calls on one transformer object:
 
   {"cfg": [...], "itype": "range"|"int64", "shift": c,
    "ops": [{"op": "fit"|"upd"|"tr"|"inv"|"ft", "z": INPUT, "up": null|bool, "ref": k|null}, ...]}
-  INPUT = {"l": [labels], "v": [floats | null (NaN)]} | "notseries" | "fidx"
+  INPUT = {"l": [labels], "v": [floats | null (NaN)], "dt": "float64"|"float32"|"int64"|"int32" (optional)}
+          | "notseries" | "fidx"        (an integer "dt" is honoured only for integral, NaN-free values)
 
 cfg:  ["des", sp, "A"|"M"]  ["cdes", sp, "A"|"M", test]  ["det", degree]  ["bc"]  ["log"]
       ["ad", name]  ["hampel", w, n_sigma, k]  ["pass", flag, inner_cfg]
@@ -60,7 +61,9 @@ ASSUMPTIONS = [
     "duplicate labels inside a batch passed to Detrender.fit/update are not modelled (pandas combine_first semantics); such cases are not sent to the model",
     "for ACF/PACF the output index is the lag, not time: the shift clause is read as 'output unchanged'",
 ]
-RULE = ("a case is a history of calls (fit / update / transform / inverse_transform / fit_transform, inverse applied to the series the real "
+RULE = ("values are held as float64 / float32 / int64 / int32 series (integer dtypes with integer-valued data; training series and later "
+        "stretches vary independently, incl. a real-valued stretch after an integer training series; count-data stream with values up to 1000); "
+        "a case is a history of calls (fit / update / transform / inverse_transform / fit_transform, inverse applied to the series the real "
         "transform returned) on one transformer object, optionally replayed with every label shifted by a constant; streams: deseasonalizer small scope "
         "(sp 1..5 x additive/multiplicative x origins -7/0/5 x every start offset in -sp-1..2sp+1 of the transformed stretch, with and without "
         "phase-neutral / arbitrary updates; quick = seed-rotated third), conditional deseasonalizer x 6 seasonality tests, detrender histories "
@@ -100,7 +103,9 @@ def _tests():
 
 
 def _sk(name):
-    from sklearn.preprocessing import MinMaxScaler, StandardScaler, Binarizer, FunctionTransformer
+    from sklearn.preprocessing import MinMaxScaler, StandardScaler, RobustScaler, Binarizer, FunctionTransformer
+    if name == "robust":
+        return RobustScaler()
     if name == "minmax":
         return MinMaxScaler()
     if name == "standard":
@@ -170,13 +175,25 @@ def _contig(labels):
     return all(b - a == 1 for a, b in zip(labels, labels[1:]))
 
 
+def _dt(inp):
+    """numpy dtype of the values of a generated series"""
+    dt = inp.get("dt", "float64") if isinstance(inp, dict) else "float64"
+    if dt.startswith("int") and not all(v is not None and float(v) == int(v) for v in inp["v"]):
+        return "float64"
+    return dt
+
+
+def _has_f32(case):
+    return any(isinstance(o["z"], dict) and o["z"].get("dt") == "float32" for o in case["ops"])
+
+
 def _mk_input(inp, itype, shift):
     if inp == "notseries":
         return [1.0, 2.0, 3.0]
     if inp == "fidx":
         return pd.Series([1.0, 2.0], index=pd.Index([0.5, 1.5]))
     labels = [int(l) + shift for l in inp["l"]]
-    vals = np.array([np.nan if v is None else float(v) for v in inp["v"]], dtype="float64")
+    vals = np.array([np.nan if v is None else float(v) for v in inp["v"]], dtype="float64").astype(_dt(inp))
     if itype == "range" and labels and _contig(labels):
         idx = pd.RangeIndex(labels[0], labels[-1] + 1)
     else:
@@ -298,6 +315,8 @@ def _des_cfg(cfg):
 
 def run_real(case):
     extras = {}
+    if _has_f32(case):
+        extras["f32"] = True       # single-precision inputs: results carry ~1e-7 relative rounding error
     try:
         main = _run_hist(case, 0, extras)
         out = " ".join(main)
@@ -374,13 +393,18 @@ class _Shadow:
                         fe = _err_token(e)
         return seas, iss, fe
 
-    def aux(self, vals, inverse):
-        """values of the library function on `vals` (list of float) or None"""
+    def aux(self, vals, inverse, dt="float64"):
+        """(values of the library function on `vals` held in an array of dtype `dt`, dtype of the result) or None"""
         if self.k == "pass":
-            return None if self.cfg[1] else self.inner.aux(vals, inverse)
+            return None if self.cfg[1] else self.inner.aux(vals, inverse, dt)
         if len(vals) == 0 or (self.k == "ad" and inverse and not _sk_has_inverse(self.cfg[1])):
             return None          # the code never reaches the library function here
-        x = np.array(vals, dtype="float64")
+        x = np.array(vals, dtype="float64").astype(dt)
+
+        def pack(r):
+            r = np.asarray(r).ravel()
+            return [float(v) for v in r], str(r.dtype)
+
         try:
             with warnings.catch_warnings():
                 warnings.simplefilter("ignore")
@@ -389,14 +413,14 @@ class _Shadow:
                         if self.lam is None:
                             return None
                         from scipy.special import boxcox, inv_boxcox
-                        return [float(v) for v in (inv_boxcox(x, self.lam) if inverse else boxcox(x, self.lam))]
+                        return pack(inv_boxcox(x, self.lam) if inverse else boxcox(x, self.lam))
                     if self.k == "log":
-                        return [float(v) for v in (np.exp(x) if inverse else np.log(x))]
+                        return pack(np.exp(x) if inverse else np.log(x))
                     if self.k == "ad":
                         if self.sk is None:
                             return None
                         r = self.sk.inverse_transform(x.reshape(-1, 1)) if inverse else self.sk.transform(x.reshape(-1, 1))
-                        return [float(v) for v in np.asarray(r).ravel()]
+                        return pack(r)
         except Exception:
             return "RAISED"
         return None
@@ -471,15 +495,15 @@ def to_line(case):
     def table(cands, inverse):
         """`key=value|key=value`: the library function on every input this call may receive"""
         parts, first = [], None
-        for vals in cands:
-            out = sh.aux(vals, inverse)
+        for vals, dt in cands:
+            out = sh.aux(vals, inverse, dt)
             if out == "RAISED":
                 raise _LibraryRaised()
             if out is None:
                 continue
             if first is None:
                 first = out
-            part = "%s=%s" % (_rats(vals), _rats(out))
+            part = "%s=%s" % (_rats(vals), _rats(out[0]))
             if part not in parts:
                 parts.append(part)
         return ("|".join(parts) if parts else "none"), first
@@ -492,7 +516,7 @@ def to_line(case):
                 return None      # duplicate labels in a batch fed to the embedded forecaster: combine_first is not modelled there
             cands = []
             if _is_series(inp):
-                cands.append([np.nan if v is None else float(v) for v in inp["v"]])
+                cands.append(([np.nan if v is None else float(v) for v in inp["v"]], _dt(inp)))
             if k == "inv" and op.get("ref") is not None and op["ref"] < len(fwd) and fwd[op["ref"]] is not None:
                 cands.insert(0, fwd[op["ref"]])
             if k in ("fit", "ft"):
@@ -568,14 +592,15 @@ def _tok_close(rt, mt, tol=1e-9):
 
 
 def compare(real_out, model_out):
-    rm, rs, _ = _split_out(real_out)
+    rm, rs, ex = _split_out(real_out)
     mm, ms, _ = _split_out(model_out)
+    tol = 2e-6 if '"f32": true' in ex else 1e-9       # single-precision inputs
     if len(rm) != len(mm) or (rs is None) != (ms is None):
         return False
-    if not all(_tok_close(a, b) for a, b in zip(rm, mm)):
+    if not all(_tok_close(a, b, tol) for a, b in zip(rm, mm)):
         return False
     if rs is not None:
-        if len(rs) != len(ms) or not all(_tok_close(a, b) for a, b in zip(rs, ms)):
+        if len(rs) != len(ms) or not all(_tok_close(a, b, tol) for a, b in zip(rs, ms)):
             return False
     return True
 
@@ -600,6 +625,8 @@ def oracle(case, out):
     if len(main) != len(ops):
         return [(site + ":harness-output-length", "got %d tokens for %d ops" % (len(main), len(ops)))]
     extras = json.loads(extras or "{}")
+    rt_tol = 1e-5 if extras.get("f32") else RT_TOL      # single-precision inputs: float32 rounding
+    ph_tol = 1e-5 if extras.get("f32") else PH_TOL
     P = [_parse_tok(t) for t in main]
 
     def add(key, msg):
@@ -647,7 +674,7 @@ def oracle(case, out):
             if tv is None or x is None:
                 continue
             b = _num(bv)
-            tol = RT_TOL
+            tol = rt_tol
             if lam is not None and lam != 0.0:
                 # rounding-error bound of evaluating (lam*y + 1)**(1/lam) in double precision: the relative
                 # error eps*(1+|lam*y|)/|lam*y+1| of the base is amplified by the exponent 1/|lam|
@@ -710,7 +737,7 @@ def oracle(case, out):
                 if p not in ref:
                     ref[p] = c
                     continue
-                if abs(c - ref[p]) > PH_TOL * max(1.0, abs(ref[p])):
+                if abs(c - ref[p]) > ph_tol * max(1.0, abs(ref[p])):
                     msg = ("op %d (%s): component at label %d (phase %d relative to training start %d) is %r, "
                            "but %r was removed at that phase from the training series" % (i, k, l, p, t0, c, ref[p]))
                     if any((u - t0) % sp != 0 for u in upd_starts):
@@ -783,6 +810,9 @@ def features(case, out):
                     f.append("stretch-before-training")
     if case.get("itype") == "int64":
         f.append("int64index")
+    for o in case["ops"]:
+        if isinstance(o["z"], dict) and o["z"].get("dt"):
+            f.append("dtype=" + _dt(o["z"]) + ("(train)" if o["op"] in ("fit", "ft") else ""))
     return sorted(set(f))
 
 
@@ -801,6 +831,33 @@ def _series(rng, start, n, positive=True, nan_p=0.0):
         v = _dy(rng) if positive else rng.randrange(-160, 161) / 4
         vals.append(None if rng.random() < nan_p else v)
     return {"l": list(range(start, start + n)), "v": vals}
+
+
+DTYPES = ["float64"] * 6 + ["int64"] * 2 + ["int32", "float32"]
+
+
+def _as_dtype(rng, z, dt=None):
+    """give a generated series a dtype; integer dtypes get integer-valued, NaN-free data"""
+    dt = dt or rng.choice(DTYPES)
+    if not isinstance(z, dict) or dt == "float64":
+        return z
+    z = dict(z)
+    if dt.startswith("int"):
+        z["v"] = [float(round(v)) if v is not None else float(rng.randrange(1, 40)) for v in z["v"]]
+        z["v"] = [v if v != 0 or rng.random() < 0.5 else 1.0 for v in z["v"]]
+    z["dt"] = dt
+    return z
+
+
+def _vary_dtypes(rng, case, p=0.45):
+    """training series and later stretches get independent dtypes (e.g. a float stretch after an
+    integer training series)"""
+    if rng.random() >= p:
+        return case
+    for o in case["ops"]:
+        if isinstance(o["z"], dict) and rng.random() < 0.7:
+            o["z"] = _as_dtype(rng, o["z"])
+    return case
 
 
 def _seasonal_series(rng, start, n, sp, positive=True):
@@ -909,7 +966,7 @@ def _gen_det(tier, rng, cases):
 
 def _gen_col(tier, rng, cases):
     reps = 25 if tier == "quick" else 300
-    for cfg in (["bc"], ["log"], ["ad", "minmax"], ["ad", "standard"], ["ad", "binarizer"], ["ad", "log1p"]):
+    for cfg in (["bc"], ["log"], ["ad", "minmax"], ["ad", "standard"], ["ad", "robust"], ["ad", "binarizer"], ["ad", "log1p"]):
         for r in range(reps):
             t0 = rng.choice([-5, 0, 4, 20])
             n = rng.randrange(3, 12)
@@ -925,6 +982,34 @@ def _gen_col(tier, rng, cases):
             if rng.random() < 0.15:
                 ops.append({"op": "upd", "z": z2, "up": None})
             cases.append({"cfg": cfg, "itype": rng.choice(["range", "int64"]), "shift": rng.choice([0, 3, -8]), "ops": ops})
+
+
+def _gen_counts(tier, rng, cases):
+    """count data: integer-dtype training series (values up to 1000), an overlapping integer stretch and a
+    later REAL-valued stretch on the same scale (smoothed values), for every invertible transformer"""
+    reps = 6 if tier == "quick" else 60
+    cfgs = [["ad", "standard"], ["ad", "minmax"], ["ad", "robust"], ["ad", "log1p"], ["bc"], ["log"],
+            ["det", 1], ["des", 3, "A"], ["des", 2, "M"], ["pass", False, ["ad", "standard"]]]
+    for cfg in cfgs:
+        for _ in range(reps):
+            t0 = rng.choice([0, 10, -4])
+            n = rng.randrange(12, 60)
+            dt = rng.choice(["int64", "int64", "int32"])
+            vals = [float(rng.randrange(1, 1000)) for _ in range(n)]
+            z1 = {"l": list(range(t0, t0 + n)), "v": vals, "dt": dt}
+            k = rng.randrange(2, n)
+            over = {"l": z1["l"][n - k:], "v": vals[n - k:], "dt": rng.choice([dt, "float64"])}
+            sm = [(vals[max(i - 1, 0)] + vals[i] + vals[min(i + 1, n - 1)]) / 4 for i in range(n - k, n)]   # dyadic, real-valued
+            smooth = {"l": [l + rng.choice([0, k]) for l in over["l"]], "v": sm, "dt": rng.choice(["float64", "float64", "float32"])}
+            ops = [{"op": "fit", "z": z1}, {"op": "tr", "z": z1}, {"op": "inv", "z": z1, "ref": 1},
+                   {"op": "tr", "z": over}, {"op": "inv", "z": over, "ref": 3},
+                   {"op": "tr", "z": smooth}, {"op": "inv", "z": smooth, "ref": 5}]
+            if rng.random() < 0.3:
+                ops = [{"op": "ft", "z": z1}, {"op": "inv", "z": z1, "ref": 0}] + ops[3:]
+                for o in ops[2:]:
+                    if o.get("ref") is not None:
+                        o["ref"] -= 1
+            cases.append({"cfg": cfg, "itype": rng.choice(["range", "int64"]), "shift": rng.choice([0, 0, 5]), "ops": ops})
 
 
 def _gen_pass(tier, rng, cases):
@@ -992,7 +1077,7 @@ def _rand_cfg(rng):
     if r < 0.84:
         return ["log"]
     if r < 0.92:
-        return ["ad", rng.choice(["minmax", "standard", "binarizer"])]
+        return ["ad", rng.choice(["minmax", "standard", "robust", "binarizer"])]
     return ["pass", rng.random() < 0.4, rng.choice([["des", 2, "A"], ["det", 1], ["log"]])]
 
 
@@ -1061,11 +1146,18 @@ def gen_cases(tier, rng):
     _gen_cdes(tier, rng, cases)
     _gen_det(tier, rng, cases)
     _gen_col(tier, rng, cases)
+    _gen_counts(tier, rng, cases)
     _gen_pass(tier, rng, cases)
     _gen_hampel(tier, rng, cases)
     _gen_positional(tier, rng, cases)
     _gen_random(tier, rng, cases)
     _gen_random(tier, rng, cases, malformed=True)
+    # dtype of the values: training series and later stretches vary independently
+    # (float64 / float32 / int64 / int32; integer dtypes carry integer-valued data)
+    n_counts = sum(1 for c in cases if any(isinstance(o["z"], dict) and "dt" in o["z"] for o in c["ops"]))
+    for c in cases:
+        if not any(isinstance(o["z"], dict) and "dt" in o["z"] for o in c["ops"]):
+            _vary_dtypes(rng, c)
     return cases
 
 
